@@ -10,6 +10,7 @@ import (
 	"fmt"
 	"os"
 
+	"verif/harness/abs"
 	"verif/harness/dict"
 	"verif/harness/exec"
 	"verif/harness/gen"
@@ -70,7 +71,68 @@ var drivers = map[string]func(*exec.State, *gen.G, int){
 // driveRT: round trips of random well-formed values of every kind.
 func driveRT(s *exec.State, g *gen.G, n int) {
 	for i := 0; i < n; i++ {
-		scriptRT(s, g.Of(gen.Kinds[i%len(gen.Kinds)]))
+		v := g.Of(gen.Kinds[i%len(gen.Kinds)])
+		if i%5 == 4 {
+			selfRef(g, v)
+		}
+		scriptRT(s, v)
+	}
+}
+
+// selfRef makes a numeric field of v describe v itself: an SSRC, sequence number or count-like field is set to
+// the length of one of the packet's lists, to the size of its encoding in octets or words, or to a list element's
+// index (values no generator of independent fields produces, and the kind of coincidence "clever" code keys on).
+func selfRef(g *gen.G, v abs.V) {
+	var nums []int
+	if b := encodeWith(v); b != nil {
+		nums = append(nums, len(b), len(b)/4, len(b)/4-1, len(b)-4)
+	}
+	for _, x := range v {
+		if l, ok := x.(abs.L); ok {
+			nums = append(nums, len(l), len(l)-1, len(l)+1)
+		}
+	}
+	if len(nums) == 0 {
+		return
+	}
+	pick := func() int {
+		n := nums[g.R.Intn(len(nums))]
+		if n < 0 {
+			n = 0
+		}
+		return n
+	}
+	for _, f := range []string{"ssrc", "sender", "media"} {
+		if _, ok := v[f]; ok && g.Bool() {
+			v[f] = abs.U32(uint32(pick()))
+		}
+	}
+	for _, f := range []string{"base", "fb"} {
+		if _, ok := v[f].(int); ok && g.Bool() {
+			v[f] = pick() % 256
+		}
+	}
+	for _, lf := range []string{"nacks", "sli", "fir", "srcs", "ssrcs", "reports"} {
+		l, ok := v[lf].(abs.L)
+		if !ok || len(l) == 0 {
+			continue
+		}
+		i := g.R.Intn(len(l))
+		switch e := l[i].(type) {
+		case abs.V:
+			for _, f := range []string{"pid", "first", "number", "seq"} {
+				if _, ok := e[f].(int); ok && g.Bool() {
+					e[f] = g.Pick(len(l), i, i+1, pick()) % 256
+				}
+			}
+			if _, ok := e["ssrc"]; ok && g.Bool() {
+				e["ssrc"] = abs.U32(uint32(g.Pick(len(l), i, pick())))
+			}
+		case abs.L:
+			if len(e) == 4 && g.Bool() {
+				l[i] = abs.U32(uint32(g.Pick(len(l), i, pick())))
+			}
+		}
 	}
 }
 
